@@ -48,8 +48,23 @@ def worldObs (env : Env) (w : World) : Nat × List SC.Obs :=
 
 structure Acc where
   w : World
+  prev : Nat × List SC.Obs          -- what the real sidecars reported after the previous operation
   mism : Option (Nat × String) := none
   flags : List String := []
+
+/-- a real sidecar's report as the coordinator reads it -/
+def reportOfObs (o : SC.Obs) : AL St :=
+  o.status.map fun p => (p.1, ({ health := p.2.health, series := p.2.series, total := p.2.total, state := p.2.state, times := p.2.times } : St))
+
+/-- the probe a real sidecar's report amounts to (idle times are not classified: only used where
+    scale-down is switched off) -/
+def probeOfObs (o : SC.Obs) (f : Fault) : Probe :=
+  { ready := !f.notReady
+    status := if f.statusFail then none else some (reportOfObs o)
+    rt1 := if f.rtFail then none else some (⟨o.head, o.proc, .none⟩, !f.outOfSync)
+    pushOk := false
+    rt2 := none
+    postOk := !f.postLost }
 
 /-- search pruning: within a cycle (after GC) no stage removes a key from a shard's plan, so a
     partial plan can lead to the observed request bodies only if its keys are among theirs
@@ -82,16 +97,27 @@ def stepAcc (prune : Bool) (env : Env) (a : Acc) (x : Nat × ROp × (Nat × List
       let sc := match hit with | some sc => sc | none => scheds.headD {}
       let a := if hit.isNone then fail a s!"cycle:no-schedule-of-{scheds.length}" else a
       let (w', out) := cycleStep Coord.swrFloat env a.w sc faults sf
-      let reports := reportsOf a.w
+      -- the C03 predicates are evaluated on what the *real* sidecars reported, so that they stay
+      -- meaningful when model and implementation disagree
+      let reports := a.prev.2.map reportOfObs
+      let after := obs.map reportOfObs
       let conv := Loop.converged env.opt a.w.active a.w.explore reports
-      let up := Loop.scaleUpClause inp out
+      let inpObs : Input := { opt := env.opt, active := a.w.active, explore := a.w.explore, scaleErr1 := sf,
+                              probes := a.prev.2.zipIdx.map fun (o, i) => probeOfObs o (faultAt faults i) }
+      let globObs := globalOf (reports.map fun st => (⟨true, {}, st⟩ : SI)) a.w.explore
+      let unplaced := a.w.active.any fun h => Loop.eligible env.opt globObs h && !(after.any fun st => st.has h) &&
+        !(ob.reqs.any fun rs => match Spec.postedBody rs with | some b => (b.map fun (x : Hash × TState × Int) => x.1).contains h | none => false)
+      let up := !(faults.all Loop.Fault.none && !sf && unplaced && !ob.crashed && (reports.length : Int) < env.opt.maxShard) ||
+        (match ob.scales.getLast? with | some k => k > reports.length | none => false)
+      let _ := out
       -- did the real cycle leave every shard alone and keep the scale?
       let quiet := ob.scales == [(a.w.replicas : Int)] && !ob.crashed &&
         ob.reqs.length == reports.length && (ob.reqs.zip reports).all fun (rs, st) => rs == Loop.quietReqs st
       -- the hypotheses of the stability theorem (`C03_stable_checked`) on the real reports
-      let qb := quietB Coord.swrFloat inp
+      let qb := faults.all Loop.Fault.none && !sf && quietB Coord.swrFloat inpObs
       let flag := s!"{if conv then 1 else 0}{if quiet then 1 else 0}{if up then 1 else 0}{if faults.all Loop.Fault.none && !sf then 0 else 1}{if qb then 1 else 0}"
       { a with w := w', flags := a.flags ++ [flag] }
+  let a := { a with prev := (n, obs) }
   let (mn, mobs) := worldObs env a.w
   if mn != n then fail a s!"replicas:model={mn},real={n}"
   else if mobs != obs.map Sidecar.sortObs then
@@ -119,7 +145,7 @@ def handleWith (prune : Bool) (line : String) : String :=
     | .ok ((id, env, replicas, active, explore, ob0, ops), rest) =>
       if !rest.isEmpty then s!"bad-op trailing {rest.length}" else
       let w0 : World := { shards := List.replicate replicas freshShard, replicas, active, explore }
-      let a0 : Acc := { w := w0 }
+      let a0 : Acc := { w := w0, prev := ob0 }
       let a0 := if worldObs env w0 != (ob0.1, ob0.2.map Sidecar.sortObs) then { a0 with mism := some (0, "init") } else a0
       let a := (ops.zipIdx).foldl (fun a ((op, ob), i) => stepAcc prune env a (i + 1, op, ob)) a0
       let finalConv := Loop.converged env.opt a.w.active a.w.explore (reportsOf a.w)
